@@ -25,7 +25,7 @@ from .. import tlaval
 LEVEL = "model_checking"
 
 INVARIANTS = ["FlipFlip", "FlipReverses", "DirTheorem", "EachLeafOnce", "CreatedComplies", "PermInvariant",
-              "ConnectSound", "PairConnects"]
+              "ConnectSound", "PairConnects", "NeverOwnFlip", "WrongWayRejected"]
 
 CFG = """SPECIFICATION Spec
 CONSTANTS
@@ -39,6 +39,9 @@ CONSTANTS
  Variants = {variants}
  Triples = {triples}
  Quiet = {quiet}
+ Swaps = {swaps}
+ RootNm <- {rootnm}
+ SubNm <- {subnm}
  Mutant = "{mutant}"
 """
 
@@ -48,10 +51,10 @@ DEFECT_CLAUSE = "flipped_interface_dimensioned_member"
 
 
 def cfg(depth, width, members, pdims, sdims, attrs, flips, variants=False, triples=False, mutant="", invariants=None,
-        quiet=False):
+        quiet=False, swaps=False, rootnm="NmAnon", subnm="NmAnon"):
     t = CFG.format(depth=depth, width=width, members=members, pdims=pdims, sdims=sdims, attrs=attrs, flips=flips,
                    variants="TRUE" if variants else "FALSE", triples="TRUE" if triples else "FALSE", mutant=mutant,
-                   quiet="TRUE" if quiet else "FALSE")
+                   quiet="TRUE" if quiet else "FALSE", swaps="TRUE" if swaps else "FALSE", rootnm=rootnm, subnm=subnm)
     for inv in (INVARIANTS if invariants is None else invariants):
         t += "INVARIANT %s\n" % inv
     return t
@@ -65,7 +68,33 @@ def _lib():
     return wiring
 
 
-def build_members(ms, descs, mp=()):
+_CLASSES = []
+
+
+def named_classes():
+    """the generated Signature subclasses: IdentSig has no __eq__ of its own (amaranth compares such signatures by
+    identity); StructSig has a structural __eq__ and an extra constructor parameter, like the library's own"""
+    if not _CLASSES:
+        wiring = _lib()
+
+        class IdentSig(wiring.Signature):
+            pass
+
+        class StructSig(wiring.Signature):
+            def __init__(self, members, tag):
+                super().__init__(members)
+                self.tag = tag
+
+            def __eq__(self, other):
+                return type(other) is type(self) and self.tag == other.tag and self.members == other.members
+
+            def __repr__(self):
+                return "StructSig(%r, %r)" % (dict(self.members.items()), self.tag)
+        _CLASSES.extend([IdentSig, StructSig])
+    return _CLASSES
+
+
+def build_members(ms, descs, mp=(), pool=None):
     """ms: members of a signature expression (tuple of dicts). descs collects member path -> description."""
     from amaranth.hdl import signed, unsigned
     wiring = _lib()
@@ -75,7 +104,7 @@ def build_members(ms, descs, mp=()):
         if m["kind"] == "port":
             mem = ctor(signed(m["w"]) if m["s"] else unsigned(m["w"]), init=m["init"])
         else:
-            desc = build_sig(m["sub"], descs, mp + (m["name"],))
+            desc = build_sig(m["sub"], descs, mp + (m["name"],), pool)
             descs[mp + (m["name"],)] = desc
             mem = ctor(desc)
         if m["dims"]:
@@ -84,10 +113,22 @@ def build_members(ms, descs, mp=()):
     return out
 
 
-def build_sig(x, descs=None, mp=()):
+def build_sig(x, descs=None, mp=(), pool=None):
+    """pool: id -> object for the named-by-identity nodes: nodes with the same id are the same signature object"""
     wiring = _lib()
     descs = {} if descs is None else descs
-    sig = wiring.Signature(build_members(x["ms"], descs, mp))
+    pool = {} if pool is None else pool
+    members = build_members(x["ms"], descs, mp, pool)
+    nm = x.get("nm", "anon")
+    if nm == "anon":
+        sig = wiring.Signature(members)
+    elif nm == "ident":
+        key = (x["id"], tree_repr(x["ms"]))       # (a corrupted copy of a shared node is another object)
+        if key not in pool:
+            pool[key] = named_classes()[0](members)
+        sig = pool[key]
+    else:
+        sig = named_classes()[1](members, x["id"])
     return sig.flip() if x["fl"] else sig
 
 
@@ -133,7 +174,9 @@ def tree_repr(ms):
         if m["kind"] == "port":
             d = "%s(%s%d, init=%d)" % (m["flow"], "s" if m["s"] else "u", m["w"], m["init"])
         else:
-            d = "%s(Signature(%s)%s)" % (m["flow"], tree_repr(m["sub"]["ms"]), ".flip()" if m["sub"]["fl"] else "")
+            nm = m["sub"].get("nm", "anon")
+            cls = {"anon": "Signature", "ident": "IdentSig#%s" % m["sub"].get("id"), "struct": "StructSig"}[nm]
+            d = "%s(%s(%s)%s)" % (m["flow"], cls, tree_repr(m["sub"]["ms"]), ".flip()" if m["sub"]["fl"] else "")
         if m["dims"]:
             d += ".array(%s)" % ", ".join(map(str, m["dims"]))
         parts.append("%r: %s" % (m["name"], d))
@@ -154,12 +197,14 @@ class Tester:
         self.defect = False     # the state ran into the FlippedInterface TypeError
         self.connect_broken = False   # connect on a compliant tuple raised something else than ConnectionError
         self.dim_sub = has_dim_sub(ms)   # part of every violation key: the tree has a dimensioned signature member
+        self.rootnm = exp.get("rootnm", "anon")
+        self.cls = {"anon": "Signature", "ident": "IdentSig", "struct": "StructSig"}[self.rootnm]
 
     # ---- reporting ----
     def bad(self, clause, op, text, **extra):
         key = {"clause": clause, "op": op, "dim_sub": self.dim_sub}
         key.update(extra)
-        self.viol.append((key, "Signature(%s): %s" % (tree_repr(self.ms), text)))
+        self.viol.append((key, "%s(%s): %s" % (self.cls, tree_repr(self.ms), text)))
 
     def report_exc(self, op, e, subject="", clause="unexpected_exception"):
         """an exception other than the specified one is a finding; the FlippedInterface TypeError gets its own key"""
@@ -167,8 +212,8 @@ class Tester:
             self.defect = True
             self.stats["defect_hits"] += 1
             self.viol.append(({"clause": DEFECT_CLAUSE, "error": "TypeError", "op": op, "dim_sub": self.dim_sub},
-                              "Signature(%s)%s: %s raises TypeError: %s" % (
-                                  tree_repr(self.ms), subject, op, str(e)[:160])))
+                              "%s(%s)%s: %s raises TypeError: %s" % (
+                                  self.cls, tree_repr(self.ms), subject, op, str(e)[:160])))
         else:
             self.bad(clause, op, "%s%s raises %s: %s" % (op, subject, type(e).__name__, str(e)[:300]),
                      error=type(e).__name__)
@@ -189,23 +234,36 @@ class Tester:
         return True
 
     # ---- pieces ----
+    def root(self, ms):
+        return {"fl": False, "ms": ms, "nm": self.rootnm, "id": 0 if self.rootnm == "anon" else 100}
+
     def run(self):
         wiring = _lib()
         exp = self.exp
         self.descs = {}
-        x = {"fl": False, "ms": self.ms}
-        self.sig = sig = build_sig(x, self.descs)
+        self.pool = {}
+        x = self.root(self.ms)
+        self.sig = sig = build_sig(x, self.descs, (), self.pool)
         self.fsig = fsig = sig.flip()
         self.flat = {"S": [self.leaf(l) for l in exp["flatS"]], "F": [self.leaf(l) for l in exp["flatF"]]}
 
         # -- flipping and equality
         self.eq("flip_flip", "eq", sig.flip().flip() == sig, exp["eqFF"], "sig.flip().flip() == sig")
+        self.eq("flip_flip", "eq", (sig.flip().flip() is sig, fsig.flip() is sig), (exp["eqFF"],) * 2,
+                "sig.flip().flip() is sig (flipping back returns the original object)")
+        self.eq("flip_eq", "eq", (fsig != sig, sig != fsig), (not exp["eqFlip"],) * 2, "sig.flip() != sig")
+        for label, sg, want in (("sig.members", sig, exp["memS"]), ("sig.flip().members", fsig, exp["memF"])):
+            got = tuple((name, "In" if mem.flow == wiring.In else "Out") for name, mem in sg.members.items())
+            self.eq("flip_members", "eq", got, tuple(tuple(e) for e in want), label + " (name, flow)")
         self.eq("flip_flip", "eq", fsig.flip().flip() == fsig, exp["eqFF"], "sig.flip().flip().flip() == sig.flip()")
         self.eq("flip_eq", "eq", (fsig == sig, sig == fsig), (exp["eqFlip"],) * 2, "sig.flip() == sig")
-        self.eq("flip_eq", "eq", build_sig(x) == sig, True, "a second construction of the same signature == sig")
+        copy2 = build_sig(x)
+        self.eq("flip_eq", "eq", (copy2 == sig, sig == copy2, copy2.flip() == fsig), (exp["eqCopy"],) * 3,
+                "a second, separate construction of the same tree == sig")
         # Flip as data (every top-level member with the other flow) is what the proxy must equal
-        self.fdata = fdata = build_sig({"fl": False, "ms": tuple({**m, "flow": "In" if m["flow"] == "Out" else "Out"} for m in self.ms)})
-        self.eq("flip_eq", "eq", (fdata == fsig, fsig == fdata, fdata.flip() == sig), (True, True, True),
+        self.fdata = fdata = build_sig({"fl": False, "nm": "anon", "id": 0, "ms": tuple(
+            {**m, "flow": "In" if m["flow"] == "Out" else "Out"} for m in self.ms)}, None, (), self.pool)
+        self.eq("flip_eq", "eq", (fdata == fsig, fsig == fdata, fdata.flip() == sig), (exp["eqData"],) * 3,
                 "Signature(members flipped one by one) == sig.flip()")
 
         # -- create / flatten / is_compliant, on S, on F, and on flipped(S object)
@@ -218,7 +276,9 @@ class Tester:
         for name, s_, o_, want in (("sig.is_compliant(sig.create())", sig, obj, exp["compSS"]),
                                    ("sig.flip().is_compliant(sig.flip().create())", fsig, fobj, exp["compFF"]),
                                    ("sig.flip().is_compliant(flipped(sig.create()))", fsig, wiring.flipped(obj), exp["compFF"]),
-                                   ("sig.is_compliant(sig.flip().create())", sig, fobj, exp["compSF"])):
+                                   ("sig.is_compliant(sig.flip().create())", sig, fobj, exp["compSF"]),
+                                   ("sig.is_compliant(flipped(sig.create()))", sig, wiring.flipped(obj), exp["compSF"]),
+                                   ("sig.flip().is_compliant(sig.create())", fsig, obj, exp["compFS"])):
             ok, got = self.guarded("is_compliant", lambda: s_.is_compliant(o_), " " + name)
             if ok:
                 self.eq("created_complies", "is_compliant", got, want, name)
@@ -237,16 +297,17 @@ class Tester:
             perms = list(itertools.permutations(range(len(t))))
             for pi, perm in enumerate(perms):
                 args = [self.make_arg(k, "a%d" % i) for i, k in enumerate(t)]
-                sim = self.opts["sim_all"] or pi == 0 or pi == len(perms) - 1
+                sim = self.opts["sim_all"] or pi == 0     # (every order is compared structurally, statement by statement)
                 self.check_connect(t, args, perm, out, sim=sim, what="tuple %s order %s" % ("".join(t), perm))
 
         # -- single-point corruptions (meaningless when the compliant tuple cannot be connected in the first place)
-        if exp.get("vars") or exp.get("cvars") or exp.get("ovars") or exp.get("qvars"):
+        if exp.get("vars") or exp.get("cvars") or exp.get("ovars") or exp.get("qvars") or exp.get("swaps"):
             if self.defect or self.connect_broken:
                 self.stats["variants_skipped_defect"] = 1
             else:
                 self.check_variants()
                 self.check_quiet()
+                self.check_swaps()
 
         # -- component metadata
         if self.opts["metadata"]:
@@ -330,7 +391,7 @@ class Tester:
         if ms is None:
             sig = self.sig
         else:
-            sig = build_sig({"fl": False, "ms": ms})
+            sig = build_sig(self.root(ms))
         return (sig if k == "S" else sig.flip()).create(path=(name,))
 
     def leaf_signals(self, arg, paths, what):
@@ -536,6 +597,28 @@ class Tester:
                 self.check_connect(t, args, perm, out, sim=True, what=what + " order %r" % (perm,),
                                    clause="connect_no_output_leaf", paths=base_paths)
 
+    def check_swaps(self):
+        """an interface created from sig whose sub-interface at one path is replaced by flipped(that sub-interface):
+        is_compliant and connect (both argument orders) against the specification"""
+        wiring = _lib()
+        for v in sorted(self.exp.get("swaps", ()), key=repr):
+            path, want, out = pypath(v[0]), v[1], v[2]
+            self.stats["variants"] += 1
+            self.stats["swaps"] = self.stats.get("swaps", 0) + 1
+            what = "sig.create() with the sub-interface at %r replaced by its flipped version" % (path,)
+            for perm in ((0, 1), (1, 0)):
+                obj = self.sig.create(path=("a0",))
+                ok, _ = self.guarded("setattr", lambda: set_leaf(obj, path, wiring.flipped(traverse(obj, path))), " " + what)
+                if not ok:
+                    return
+                if perm == (0, 1):
+                    ok, got = self.guarded("is_compliant", lambda: self.sig.is_compliant(obj), " " + what)
+                    if ok:
+                        self.eq("wrong_way_sub_interface", "is_compliant", got, want, "is_compliant of " + what)
+                args = [obj, self.fsig.create(path=("a1",))]
+                self.check_connect(("S", "F"), args, perm, out, sim=True, what="connect of %s and sig.flip().create(), order %r"
+                                   % (what, perm), clause="wrong_way_sub_interface")
+
     def check_metadata(self, k, sig):
         wiring = _lib()
 
@@ -713,7 +796,7 @@ def run_tlc(ctx, name, cfg_text, opts):
         # the same model, plus the expectation of the binding-demo tree printed at start-up (saves a JVM)
         module = "WiringDemo"
         kw["extra_files"] = {"WiringDemo.tla": "---- MODULE WiringDemo ----\nEXTENDS Wiring\nDemo == %s\n"
-                             "ASSUME PrintT(Expect(Demo))\n====\n" % tlaval.to_tla(_tla_ms(opts["demo"]))}
+                             "ASSUME PrintT(Expect(Demo, \"anon\"))\n====\n" % tlaval.to_tla(_tla_ms(opts["demo"]))}
     r = ctx.tlc(module, stage="mc/" + name, cfg_text=cfg_text, workers=opts.get("workers", 4),
                 args=("-deadlock", "-dump", dump) + (("-coverage", "1") if opts.get("coverage") else ()), **kw)
     if opts.get("coverage"):
@@ -776,8 +859,9 @@ def replay_dump(ctx, name, r, path, opts):
 
 
 DEMO_MS = ({"name": "p", "flow": "In", "dims": (), "kind": "sig", "w": 0, "s": False, "init": 0,
-            "sub": {"fl": False, "ms": ({"name": "a", "flow": "In", "dims": (2,), "kind": "port", "w": 2, "s": True,
-                                         "init": 1, "sub": {"fl": False, "ms": ()}},)}},)
+            "sub": {"fl": False, "nm": "anon", "id": 0,
+                    "ms": ({"name": "a", "flow": "In", "dims": (2,), "kind": "port", "w": 2, "s": True,
+                            "init": 1, "sub": {"fl": False, "nm": "anon", "id": 0, "ms": ()}},)}},)
 
 
 def plans_for(th):
@@ -791,8 +875,13 @@ def plans_for(th):
               {"metadata_every": 1, "workers": 2, "demo": DEMO_MS}))
     if not th:
         # nesting x dimensioned sub-signatures x In/Out x explicit flips, with all corruptions
-        P.append(("nested-corrupt", cfg(2, 2, 2, "DimsTwo", "DimsAll", "AttrsOne", "FlipsBoth", variants=True),
+        P.append(("nested-corrupt", cfg(2, 2, 2, "DimsTwo", "DimsAll", "AttrsOne", "FlipsBoth", variants=True, swaps=True),
                   {"coverage": True, "metadata_every": 2, "workers": 4}))
+        # named signatures (subclass instances compared by identity / with a structural __eq__) at the top level
+        # and as members, the same object reused plain and flipped; wrongly oriented sub-interfaces
+        P.append(("named", cfg(2, 2, 3, "DimsNone", "DimsTwo", "AttrsOne", "FlipsNo", swaps=True, rootnm="NmAll",
+                               subnm="NmNamed"),
+                  {"metadata_every": 8, "workers": 4}))
         # a path that no argument drives (input everywhere), at nested / dimensioned positions, with its corruptions
         P.append(("undriven", cfg(2, 2, 3, "DimsTwo", "DimsTwo", "AttrsOne", "FlipsNo", quiet=True),
                   {"metadata_every": 0, "workers": 4}))
@@ -807,8 +896,17 @@ def plans_for(th):
         # a path that no argument drives (input everywhere), at nested / dimensioned positions, with its corruptions
         P.append(("undriven", cfg(2, 2, 3, "DimsTwo", "DimsAll", "AttrsOne", "FlipsBoth", quiet=True, triples=True),
                   {"metadata_every": 0, "workers": 8}))
-        P.append(("nested-corrupt-dims", cfg(2, 2, 2, "DimsTwo", "DimsAll", "AttrsFew", "FlipsBoth", variants=True, triples=True),
+        P.append(("nested-corrupt-dims", cfg(2, 2, 2, "DimsTwo", "DimsAll", "AttrsFew", "FlipsBoth", variants=True, triples=True,
+                                             swaps=True),
                   {"coverage": True, "metadata_every": 1, "workers": 4}))
+        # named signatures (subclass instances compared by identity / with a structural __eq__) at the top level
+        # and as members, the same object reused plain and flipped; wrongly oriented sub-interfaces
+        P.append(("named", cfg(3, 2, 3, "DimsTwo", "DimsTwo", "AttrsOne", "FlipsBoth", swaps=True, rootnm="NmAll",
+                               subnm="NmAll"),
+                  {"metadata_every": 32, "workers": 8}))
+        P.append(("named-corrupt", cfg(2, 2, 2, "DimsTwo", "DimsTwo", "AttrsOne", "FlipsBoth", variants=True, quiet=True,
+                                       swaps=True, rootnm="NmNamed", subnm="NmNamed"),
+                  {"metadata_every": 4, "workers": 4}))
         P.append(("nested", cfg(3, 2, 4, "DimsNone", "DimsTwo", "AttrsOne", "FlipsBoth"),
                   {"metadata_every": 64, "workers": 8}))
         P.append(("nested-attrs", cfg(2, 2, 3, "DimsAll", "DimsAll", "AttrsFew", "FlipsBoth"),
@@ -836,6 +934,10 @@ def run(ctx):
                 cfg_text=cfg(2, 2, 2, "DimsTwo", "DimsTwo", "AttrsOne", "FlipsNo", mutant="no_flip_into_dimensioned_sub",
                              invariants=["FlipReverses"]),
                 args=("-deadlock",), expect_violation="FlipReverses")
+        ctx.tlc("Wiring", stage="mutant/named_flip_is_noop", workers=2, count=False,
+                cfg_text=cfg(2, 2, 2, "DimsNone", "DimsNone", "AttrsOne", "FlipsNo", rootnm="NmAll", subnm="NmNamed",
+                             mutant="named_flip_is_noop", invariants=["NeverOwnFlip"]),
+                args=("-deadlock",), expect_violation="NeverOwnFlip")
         ctx.tlc("Wiring", stage="mutant/first_argument_drives", workers=2, count=False,
                 cfg_text=cfg(1, 2, 1, "DimsTwo", "DimsNone", "AttrsOne", "FlipsNo", mutant="first_argument_drives",
                              invariants=["PermInvariant"]),
@@ -851,7 +953,7 @@ def run(ctx):
                 if not vals:
                     raise MachineryError("binding demo: TLC printed no expectation:\n" + r.out[-1500:])
                 demo = tlaval.parse(vals[0])
-                for k in ("vars", "cvars", "ovars", "qvars"):      # the demonstration uses the compliant tuples only
+                for k in ("vars", "cvars", "ovars", "qvars", "swaps"):      # the demonstration uses the compliant tuples only
                     demo[k] = frozenset()
             tot, stats, f = replay_dump(ctx, name, r, path, opts)
             fps |= f
@@ -898,7 +1000,8 @@ def run(ctx):
 
 
 def _tla_ms(ms):
-    return [{**m, "dims": list(m["dims"]), "sub": {"fl": m["sub"]["fl"], "ms": _tla_ms(m["sub"]["ms"])}} for m in ms]
+    return [{**m, "dims": list(m["dims"]), "sub": {"fl": m["sub"]["fl"], "nm": m["sub"].get("nm", "anon"),
+                                                   "id": m["sub"].get("id", 0), "ms": _tla_ms(m["sub"]["ms"])}} for m in ms]
 
 
 def _thaw(v):
@@ -914,14 +1017,14 @@ def replay(ctx, rep):
     r = rep["replay"]
     ms = _thaw(r["ms"])
     exp = _thaw(r["exp"])
-    for k in ("nodesS", "nodesF", "vars", "cvars", "ovars", "qvars"):
+    for k in ("nodesS", "nodesF", "vars", "cvars", "ovars", "qvars", "swaps"):
         exp[k] = frozenset(exp.get(k, ()))
     exp["conn"] = [{"errs": frozenset(c["errs"]), "edges": frozenset(c["edges"]), "unspec": c["unspec"]} for c in exp["conn"]]
 
     def fix(v):      # outcome records nested in variant tuples
         return tuple({"errs": frozenset(x["errs"]), "edges": frozenset(x["edges"]), "unspec": x["unspec"]}
                      if isinstance(x, dict) and "errs" in x else x for x in v)
-    for k in ("vars", "cvars", "qvars"):
+    for k in ("vars", "cvars", "qvars", "swaps"):
         exp[k] = frozenset(fix(v) for v in exp[k])
     t = test_state(ms, exp, r.get("opts") or {"sim_all": True, "metadata": True})
     print("Signature(%s)" % tree_repr(ms))
